@@ -76,6 +76,10 @@ func (w *World) verifyFunction(fn *ssa.Function, blk *Block, opts *Options) *Exe
 	mine0 := ex.heapTerm(st, mineH)
 	st.assume(fmt.Sprintf("(forall ((x Int)) (! (=> (select %s x) (and (< 0 x) (< x %s) (not (RO x)))) :pattern ((select %s x))))", mine0, st.alloc, mine0))
 
+	if blk.Parsetime {
+		// parse-time regime: the tree under construction is wholly owned by the running Parse
+		st.assume(fmt.Sprintf("(forall ((x Int)) (! (=> (and (< 0 x) (< x %s) (not (RO x))) (select %s x)) :pattern ((select %s x))))", st.alloc, mine0, mine0))
+	}
 	clauses, _ := w.effectiveClauses(blk)
 	env := ex.contractEnv(&Block{Kind: "func"}, fn.Signature, args, nil)
 	if fn.Signature.Recv() != nil {
